@@ -106,6 +106,15 @@ let sym_of_field s = if s = "" then [] else
 let show_members ms = String.concat ";" (List.map (fun (n, v) ->
   field_of_ustr n ^ "=" ^ (match v with None -> "-" | Some e -> show_expr e)) ms)
 
+(* lua dispatch: overloads "tags:defaults:hasresult;..." ("-" = none), stack tags *)
+let ltag_of = function 'N' -> LNum | 'B' -> LBool | 'S' -> LStr | 'U' -> LUser | _ -> LNil
+let chars s = if s = "-" then [] else List.init (String.length s) (String.get s)
+let lfun_of s = match String.split_on_char ':' s with
+  | [tags; dfl; res] ->
+      { f_params = List.map2 (fun t d -> { p_tag = ltag_of t; p_default = (d = '1') }) (chars tags) (chars dfl);
+        f_result = (res = "1") }
+  | _ -> failwith "lfun"
+
 let handle fields =
   match fields with
   | ["wc"; ll; ind; sp; ct; line] ->
@@ -160,6 +169,15 @@ let handle fields =
                    | None -> "novalue"
                    | Some vs -> String.concat "," (List.map (fun (_, z) -> string_of_int (int_of_z z)) vs)))
         (parse_enum (ustr_of_field s))
+  | ["lua"; meth; ovs; stack] ->
+      let lay = if meth = "1" then lay_method else lay_function in
+      (match dispatch lay (List.map lfun_of (String.split_on_char ';' ovs)) (List.map ltag_of (chars stack)) with
+       | LError -> "ERR"
+       | LCalls (cs, nres) ->
+           "CALLS " ^ String.concat ";" (List.map (fun (c, ix) ->
+               string_of_int (int_of_nat c.c_fun) ^ ":" ^ string_of_int (List.length c.c_in) ^ ":" ^
+               String.concat "," (List.map (fun i -> string_of_int (int_of_nat i)) ix)) cs)
+           ^ "|" ^ string_of_int (int_of_nat nres))
   | ["lstrip"; s] -> field_of_ustr (lstrip (ustr_of_field s))
   | ["rstrip"; s] -> field_of_ustr (rstrip (ustr_of_field s))
   | _ -> "BADCMD"
